@@ -52,6 +52,14 @@ CHECKS = {
             'valid/invalid alphabets x 5 routes.',
             'Trusted: the observation covers every field public operations read. copy() (explicit shallow copy) is not judged. A derivation '
             'or container/route combination that raises is not a state (counted, not judged).', 'DESIGN.md section 4 C20'),
+    'C10': (TECH_E2,
+            'No explored conversion yields anything but quantize(exact source value) under the destination modes, whatever the route: all pairs '
+            'of 44 (thorough 68) formats with n_word<=5 (6) x all source codes (1-d, scalars, 2-d) x 10 destination modes x 11 routes (resize by '
+            'sizes / dtype, like=, like(), Fxp(x,sizes), call, set_val, equal, indexed assignment, fxp_like, value-level baseline), sources built '
+            'raw and by value; boundary codes between 8..52-bit formats; source observation, shape and destination flags compared; BFS over '
+            'conversion sequences (192 events) to depth 4 (thorough 6) with dedup and 2 (3) without, reference model in lock-step.',
+            'Trusted: reference quantizer (C01/C05). Routes are compared through the common expected value (differential).',
+            'DESIGN.md section 4 C10'),
 }
 
 NOT_YET = {}
